@@ -699,7 +699,8 @@ def shrink(case):
         yield {'op': case['op'], 'input': {'seq': c, 'p': p}}
     for k, v in sorted(p.items()):
         for small in ([0, 1] if isinstance(v, int) and not isinstance(v, bool) else [False] if isinstance(v, bool) else []):
-            if v != small and not (k in ('max_shift_steps', 'max_shift_quarters', 'max_duration_steps', 'end_step') and small == 0):
+            if v != small and not (k in ('max_shift_steps', 'max_shift_quarters', 'max_duration_steps', 'end_step',
+                                         'num_velocity_bins') and small == 0):
                 q = dict(p); q[k] = small
                 yield {'op': case['op'], 'input': {'seq': d, 'p': q}}
 
